@@ -250,6 +250,29 @@ func runC03(w *World, r *Report) {
 		}
 	}
 
+	// ---- what is decided about one collected task does not depend on the tasks collected before it: no boolean that is
+	// only ever set is carried round a loop over tasks / nodes and tested inside it (a per-element flag whose reset was lost)
+	r.Rule("C03.classification-order-free", "no loop of package compose carries a set-only boolean that is tested inside the loop body other than to leave the loop", 1)
+	{
+		n, loops := 0, 0
+		for _, fn := range w.RepoFuncs("compose") {
+			loops += len(naturalLoops(fn))
+			for _, sf := range stickyFlagsTestedInLoop(fn) {
+				n++
+				r.Fail("C03.classification-order-free", fmt.Sprintf("%s: %s carries flag %s", w.fname(origin(fn)), sf.loop.what, sf.phi.Comment), sf.test.Cond.Pos(), "the flag is set for one element and never reset, yet it decides about the elements after it: in the rerun/sub-graph interrupt handler every normally completed task collected AFTER a rerun task lands in no list at all — its output and dependencies never reach the checkpoint, so the resumed run fails or returns less depending on the completion order")
+			}
+		}
+		if n == 0 {
+			r.OK("C03.classification-order-free", fmt.Sprintf("%d loops of package compose examined", loops), token.NoPos, "no set-only flag tested in a loop body")
+		}
+		if loops < 50 {
+			undecidedf("C03.classification-order-free: only %d loops found in package compose", loops)
+		}
+	}
+
+	r.Rule("C03.skip-reaches-every-successor", "the successor table the skip propagation walks lists data successors, control-only successors and branch targets (shared with C02.successors-complete): a skipped node tells every node that waits for it, otherwise that node waits for ever and the run does not end", 3)
+	successorsCompleteCheck(w, r, "C03.skip-reaches-every-successor")
+
 	r.Rule("C03.skip-decision-order-free", "a DAG node is skipped iff every control predecessor is skipped (each state compared with the skipped state): a predecessor that has already completed never counts as skipped, so the order in which a completion and a skip are collected does not matter (shared with C02.ready-guards)", 1)
 	reportSkipExact(w, r, "C03.skip-decision-order-free")
 
